@@ -346,7 +346,7 @@ func ruleReadChunk(r *Report) {
 				continue
 			}
 			n++
-			if !boundedBy(ret, ret.Results[0], func(z ssa.Value) bool {
+			isLenCommits := func(z ssa.Value) bool {
 				cl, isC := z.(*ssa.Call)
 				if !isC || len(cl.Call.Args) != 1 {
 					return false
@@ -357,8 +357,24 @@ func ruleReadChunk(r *Report) {
 				}
 				f2, isF2 := loadedField(cl.Call.Args[0])
 				return isF2 && f2.Struct == "column.Collection" && f2.Field == "commits"
-			}, 6) {
+			}
+			if !boundedBy(ret, ret.Results[0], isLenCommits, 6) {
 				ok = false
+			}
+			// where the bound enters through `if chunks > len(commits) { chunks = len(commits) }` the
+			// branch has the polarity of a minimum: the table's length is taken when it is the smaller one
+			rv := ret.Results[0]
+			if ld, isLd := rv.(*ssa.UnOp); isLd && ld.Op == token.MUL {
+				if vals := cellStoresBefore(ret); len(vals) == 1 {
+					rv = vals[0] // spilled round the deferred unlock
+				}
+			}
+			if phi, isPhi := strip(rv).(*ssa.Phi); isPhi && len(phi.Edges) == 2 {
+				for i, e := range phi.Edges {
+					if dependsOn(e, isLenCommits, 4) && !dependsOn(phi.Edges[1-i], isLenCommits, 4) && clampPolarity(phi, i) > 0 {
+						ok = false
+					}
+				}
 			}
 		}
 		h.Check(ok && n > 0, "(*column.Collection).chunks/committed-extent", r.P.Pos(cf.Pos()), "the block count is bounded by the blocks a commit has reached", "the number of blocks is taken from the fill list alone: a block that only holds offsets reserved by open transactions is visited although the columns have not been grown to it, and Snapshot (or an index back-fill) indexes column storage out of range beside an open inserting transaction")
@@ -1977,4 +1993,65 @@ func boundedBy(ret *ssa.Return, v ssa.Value, pred func(ssa.Value) bool, depth in
 		}
 		return false, false
 	})
+}
+
+// clampPolarity: for a two-way φ that clamps a value (`if a > b { a = b }`), whether the value on
+// edge i is the one chosen when it is the larger (+1) or the smaller (-1) of the two; 0 when the
+// branch is not a comparison of exactly these two values.
+func clampPolarity(phi *ssa.Phi, i int) int {
+	blk := phi.Block()
+	if len(blk.Preds) != 2 {
+		return 0
+	}
+	p := blk.Preds[i]
+	var q *ssa.BasicBlock
+	var pol bool
+	switch {
+	case len(p.Preds) == 1 && len(p.Succs) == 1:
+		// the `then` block that computes the clamped value and jumps to the join
+		q = p.Preds[0]
+		pol = len(q.Succs) == 2 && q.Succs[0] == p
+	case len(p.Succs) == 2:
+		// the edge straight from the test to the join
+		q = p
+		pol = q.Succs[0] == blk
+	default:
+		return 0
+	}
+	iff, ok := q.Instrs[len(q.Instrs)-1].(*ssa.If)
+	if !ok {
+		return 0
+	}
+	cond := iff.Cond
+	for {
+		if x, isN := isNot(cond); isN {
+			cond, pol = x, !pol
+			continue
+		}
+		break
+	}
+	bo, isB := cond.(*ssa.BinOp)
+	if !isB {
+		return 0
+	}
+	op, x, y, _, isK := canonBin(bo)
+	if isK || (op != token.LSS && op != token.LEQ) {
+		return 0
+	}
+	taken, other := phi.Edges[i], phi.Edges[1-i]
+	sign := func(b bool) int {
+		if b {
+			return 1
+		}
+		return -1
+	}
+	switch {
+	case sameExpr(x, y):
+		return 0
+	case sameExpr(x, other) && sameExpr(y, taken): // other < taken on the true edge
+		return sign(pol)
+	case sameExpr(x, taken) && sameExpr(y, other): // taken < other on the true edge
+		return sign(!pol)
+	}
+	return 0
 }
